@@ -8,14 +8,14 @@ package conversion
 //@ spec le32at(b []byte, o int) uint32 = uint32(b[o]) + uint32(b[o+1])<<8 + uint32(b[o+2])<<16 + uint32(b[o+3])<<24
 
 //@ func NodeKey
-//@   property C19
+//@   property C19 C01 C08 C10 C04
 //@   pure
 //@   arith bv
 //@   ensures len(result) == 10 && result[0] == 'n' && result[9] == suffix
 //@   ensures le64at(result, 1) == id
 
 //@ func NodeIdFromKey
-//@   property C19
+//@   property C19 C01 C08 C10 C04
 //@   pure
 //@   arith bv
 //@   ensures result1 == (len(key) == 10 && key[0] == 'n' && key[9] == suffix)
@@ -23,33 +23,33 @@ package conversion
 //@   ensures !result1 ==> result0 == 0
 
 //@ func Uint64ToBytes
-//@   property C19
+//@   property C19 C01 C08 C10
 //@   pure
 //@   arith bv
 //@   ensures len(result) == 8 && le64at(result, 0) == i
 
 //@ func BytesToUint64
-//@   property C19
+//@   property C19 C01 C08 C10
 //@   pure
 //@   arith bv
 //@   requires len(b) >= 8
 //@   ensures result == le64at(b, 0)
 
 //@ func SingleFloat32ToBytes
-//@   property C19
+//@   property C19 C04 C08
 //@   pure
 //@   arith bv
 //@   ensures len(result) == 4 && sameFloat(f32frombits(le32at(result, 0)), f)
 
 //@ func BytesToSingleFloat32
-//@   property C19
+//@   property C19 C04 C08
 //@   pure
 //@   arith bv
 //@   requires len(b) >= 4
 //@   ensures sameFloat(result, f32frombits(le32at(b, 0)))
 
 //@ func float32ToBytesSafe
-//@   property C19
+//@   property C19 C04 C08
 //@   pure
 //@   arith bv
 //@   ensures len(result) == len(f)*4
@@ -58,7 +58,7 @@ package conversion
 //@   loop 1 invariant forall(k, 0, rangeindex+1, sameFloat(f32frombits(le32at(b, k*4)), f[k]))
 
 //@ func bytesToFloat32Safe
-//@   property C19
+//@   property C19 C04 C08
 //@   pure
 //@   arith bv
 //@   ensures len(result) == len(b)/4
@@ -67,7 +67,7 @@ package conversion
 //@   loop 1 invariant forall(k, 0, rangeindex+1, sameFloat(f[k], f32frombits(le32at(b, k*4))))
 
 //@ func EdgeListToBytes
-//@   property C19
+//@   property C19 C01 C08 C10
 //@   pure
 //@   arith bv
 //@   ensures len(result) == len(edges)*8
@@ -76,7 +76,7 @@ package conversion
 //@   loop 1 invariant forall(k, 0, rangeindex+1, le64at(b, k*8) == edges[k])
 
 //@ func BytesToEdgeList
-//@   property C19
+//@   property C19 C01 C08 C10
 //@   pure
 //@   arith bv
 //@   ensures len(result) == len(b)/8
